@@ -276,6 +276,17 @@ def r02_3(chk, sg, so, groups, fidx):
         comp = e.extra.get("comp")
         if comp and len(comp) == 1 and comp[0][1].key() == full[0].key() and not comp[0][2] and call_name(e.extra["args"][0].as_atom() or ()) == ".inverted":
             adds_inverted = any(pol and c.as_atom() and c.as_atom()[0] == "lt" and c.as_atom()[1] == P.const(0) for c, pol in e.guards)
+    if not adds_inverted and full:
+        # full = full + [x.inverted() for x in full]: a new list, the old one followed by its inverted copies, bound under lattice_type > 0
+        for e in xv.events:
+            if e.kind == "assign" and e.name == "full_symops" and e.value is not None and e.value.key() != full[0].key():
+                ia = obj_init(e.value).as_atom()
+                parts = list(ia[1]) if ia and ia[0] == "concat" else []
+                if len(parts) == 2 and parts[0].key() == full[0].key():
+                    ca = parts[1].as_atom()
+                    if ca and ca[0] == "comp" and ca[1] == "ListComp" and len(ca) == 4 and len(ca[3]) == 1 and not ca[3][0][2] \
+                            and ca[3][0][1].key() == full[0].key() and call_name(ca[2].as_atom() or ()) == ".inverted":
+                        adds_inverted = any(pol and c.as_atom() and c.as_atom()[0] == "lt" and c.as_atom()[1] == P.const(0) for c, pol in e.guards)
     chk.need(adds_inverted, "expanded_symmetry_list: 'lattice_type > 0 => add inverted copies' not recognised")
     inv = so.ev("SymmetryOperation.inverted")
     chk.need("-self.rotation" in inv.returns[0].value.key() and "-self.translation" in inv.returns[0].value.key(),
@@ -415,6 +426,23 @@ def r02_6(chk, sg, so, groups, fidx):
     # contribution 1: the operation itself, once per reduced operation; contribution 2: operation + t for every centring translation t
     # (an inner loop, or one extend over the translations)
     okx = len(app) == 2 and len(app[0].loops) == 1 and not app[0].extra.get("comp")
+    if not okx and len(app) == 1 and len(app[0].loops) == 2 and not app[0].extra.get("comp"):
+        # one append in a loop over [op] + [op + t for t in translations]: the operation, then one translate per centring translation
+        outer, inner = app[0].loops
+        ca = inner.iter.as_atom() if inner.iter is not None else None
+        parts = list(ca[1]) if ca and ca[0] == "concat" else []
+        if len(parts) == 2:
+            first = seq_items(parts[0])
+            cb = parts[1].as_atom()
+            if first and len(first) == 1 and cb and cb[0] == "comp" and cb[1] == "ListComp" and len(cb) == 4 and len(cb[3]) == 1 and not cb[3][0][2] \
+                    and "LATTICE_TYPE_TRANSLATIONS" in cb[3][0][1].key():
+                tr_ = (cb[2] - first[0]).as_atom()
+                okx = bool(tr_ and tr_[0] == "sub" and tr_[1].key() == cb[3][0][1].key()) and "reduced" in first[0].key() \
+                    and app[0].extra["args"][0].key().startswith(inner.iter.key() + "[")
+        if okx:
+            chk.ob("R02.6", SO, "expanded_symmetry_list", "each reduced operation contributes itself and one translate per centring translation", True,
+                   fingerprint="expansion")
+            return
     if okx:
         op = app[0].extra["args"][0]
         second = app[1]
